@@ -136,15 +136,18 @@ package util
 // shrinks by exactly that many: no non-matching line is lost, no matching line is kept.
 //@ spec nMatch(list []*ast.Comment, re *regexp.Regexp, k int) int =
 //@     cond(k <= 0, 0, nMatch(list, re, k-1) + cond(reMatchString(re, list[k-1].Text), 1, 0))
+// (C03 "acceptance does not depend on the position of comments": exactly the notation lines, all of them and nothing
+// else, reach the notation parser, wherever they stand in the group)
 //@ func ExtractMatchComments(commentGroup, pattern) (removed)
+//@   props C03
 //@   nilable commentGroup
 //@   requires pattern != nil && wfGroup(commentGroup)
 //@   assigns commentGroup.List
-//@   ensures {C11,C09} forall(i, 0, len(removed), removed[i] != nil && reMatchString(pattern, removed[i].Text))
+//@   ensures {C11,C09,C03} forall(i, 0, len(removed), removed[i] != nil && reMatchString(pattern, removed[i].Text))
 //@   ensures {C11,C09} removed == nil || fresh(removed)
 //@   ensures {C11} wfGroup(commentGroup)
 //@   ensures {C11,C09} (removed == nil) == !old(anyMatch(commentGroup, pattern)) && (removed != nil ==> len(removed) > 0)
-//@   ensures {C11,C09} commentGroup != nil ==> len(removed) == old(nMatch(commentGroup.List, pattern, len(commentGroup.List)))
+//@   ensures {C11,C09,C03} commentGroup != nil ==> len(removed) == old(nMatch(commentGroup.List, pattern, len(commentGroup.List)))
 //@   ensures {C11} commentGroup != nil ==> len(commentGroup.List) == old(len(commentGroup.List)) - len(removed)
 //@   ensures {C11} commentGroup != nil ==> forall(i, 0, len(commentGroup.List), !reMatchString(pattern, commentGroup.List[i].Text))
 //@   loop 1 invariant len(removed) == nMatch(old(commentGroup.List), pattern, $k) && (modified == nil) == (removed == nil)
